@@ -94,8 +94,34 @@ Definition ann_texts (s : store) (a : ann) : list (list nat) :=
 Definition store_texts (s : store) : sx :=
   L (map (fun ha => L (map of_nats (ann_texts s (snd ha)))) (live_items (anns s))).
 
+(* a store with a history of saves.  request = (9 ops1 ops2): the history ops1 is run and the store
+   saved as STAM CSV; then the modifications ops2 are applied to the store in memory - the
+   operations of the store model and (9 setid keytok): a key inserted on its own into an existing
+   data set (StoreFor<DataKey>::insert through get_mut) - and the store is saved again in the same
+   place and loaded.  The files of the second save must describe the store in memory: the model
+   and the specification are those of a single save of the final store (which files the library
+   rewrites - its `changed` flags - is an optimisation that must not show). *)
+Definition add_bare_key (s : store) (d tok : nat) : store :=
+  match ref_set s (ById d) with
+  | Some h => match get_set s h with
+              | Some ds => set_sets s (set_slot (sets s) h (Some (dset_add_key ds tok)))
+              | None => s
+              end
+  | None => s
+  end.
+
+Definition mod_step (s : store) (x : sx) : store :=
+  if Z.eqb (sx_Z (sx_nth 0 x)) 9 then add_bare_key s (sx_nat (sx_nth 1 x)) (sx_nat (sx_nth 2 x))
+  else fst (step s (op_of_sx x)).
+
+Definition final_store (x : sx) : store :=
+  match x with
+  | L (A _ :: p1 :: p2 :: _) => fold_left mod_step (sx_list p2) (run (map op_of_sx (sx_list p1)))
+  | _ => run (map op_of_sx (sx_list x))
+  end.
+
 Definition run_C15 (x : sx) : sx :=
-  let s := run (map op_of_sx (sx_list x)) in
+  let s := final_store x in
   let known := known_class s in
   let rt := roundtrip s in
   let same_text := match rt with
